@@ -1,0 +1,25 @@
+//go:build verif
+
+package config
+
+import "github.com/jmattheis/goverter/pkgload"
+
+// VerifSession parses converters one at a time against one shared package loader.
+// Verification hook: semantics are those of Parse on a one-element Raw.Converters.
+type VerifSession struct {
+	ctx *context
+}
+
+// VerifNewSession loads the packages referenced by raw once.
+func VerifNewSession(raw *Raw) (*VerifSession, error) {
+	loader, err := pkgload.New(raw.WorkDir, raw.BuildTags, getPackages(raw))
+	if err != nil {
+		return nil, err
+	}
+	return &VerifSession{ctx: &context{Loader: loader, EnumTransformers: raw.EnumTransformers, WorkDir: raw.WorkDir}}, nil
+}
+
+// Parse parses a single raw converter with the given global lines.
+func (s *VerifSession) Parse(rawConverter RawConverter, global RawLines) (*Converter, error) {
+	return parseConverter(s.ctx, &rawConverter, global)
+}
